@@ -92,6 +92,22 @@ theorem independent_requests_commute {st : State} {r1 r2 : Req} {k1 k2 : Nat} {s
         cases pre <;> simp at he)
     simpa [stateAfter] using this.1
 
+
+/-- **Every schedule gives each session the answers of its solo run.** Take any history `hist` that
+interleaves the requests `mine` of session `k` (in their order) with arbitrary other traffic that is
+foreign to `k` — protocol starts, and requests under other tokens on devices outside `D`, the set of
+devices `k` deals with. Then the answers given along `hist` to `k`'s requests (response types and
+effects) are exactly those of running `mine` alone, and this holds from any two deployments that
+agree on `k` and on `D`. In particular it does not depend on where in `hist` the foreign requests
+fall: all interleavings are equivalent for `k`. -/
+theorem interleaving_irrelevant (k : Nat) (D : Nat → Prop) (s : Sess) (st1 st2 : State) (mine hist : List Req)
+    (h1 : st1.sessions[k]? = some s) (h2 : st2.sessions[k]? = some s) (hsame : SameFor D st1 st2)
+    (hg : ∀ d, s.guid = some d → D d)
+    (hm : ∀ r ∈ mine, r.tok = .sess k ∧ isStart r.typ = false ∧ r.typ ≠ 255 ∧ D r.dev)
+    (hi : Interleaved k D st1 hist mine) :
+    answersTo k st1 hist = (run st2 mine).2 :=
+  interleaving_irrelevant_aux k D hist s st1 st2 mine h1 h2 hsame hg hm hi
+
 /-! Non-vacuity: two TO2 sessions for devices 1 and 2; the ProveDevice of one is answered the same
 whether or not the other session's ProveDevice, DeviceServiceInfoReady and Done ran first. -/
 example :
